@@ -88,8 +88,23 @@ func runC02(c *Ctx) {
 			}
 			c.Check(sideName(StructFieldOriginsAt(meta, codecF, call), "codec"), "C02.1", FuncName(fn), "meta.codec", call.Pos(),
 				"meta.codec is the negotiated server codec's Name()", "meta.codec handed to the target encoder is not the negotiated server codec's name: the backend gets a content-type it was not configured for")
-			c.Check(sideName(StructFieldOriginsAt(meta, comprF, call), "reqCompression"), "C02.1", FuncName(fn), "meta.compression", call.Pos(),
-				"meta.compression is the negotiated server request-compression's Name()", "meta.compression handed to the target encoder is not the negotiated server compression's name")
+			// "no compression" is also right when the converted request has no body at all (everything
+			// went into the request line): accepted only where the store of "" is guarded by the very
+			// condition under which the body is drained instead of forwarded (defect D48)
+			var comprLeaves []Leaf
+			for _, l := range StructFieldOriginsAt(meta, comprF, call) {
+				if s, isC := ConstString(l.V); l.Kind == "const" && isC && s == "" && emptyOnlyWithoutBody(p, fn, meta, comprF) {
+					continue
+				}
+				comprLeaves = append(comprLeaves, l)
+			}
+			if hasDrainDisposition(fn) {
+				c.Check(emptyWhenWithoutBody(fn, meta, comprF, call), "C02.1", FuncName(fn), "meta.compression-empty-without-body", call.Pos(),
+					"on the paths where the request body is drained instead of forwarded, meta.compression is reset to \"\" before the headers are written",
+					"a request whose body is not forwarded (everything is in the request line) still announces the negotiated compression: Content-Encoding on zero body bytes, which are not a valid compressed stream")
+			}
+			c.Check(sideName(comprLeaves, "reqCompression"), "C02.1", FuncName(fn), "meta.compression", call.Pos(),
+				"meta.compression is the negotiated server request-compression's Name() (or empty exactly when the request has no body)", "meta.compression handed to the target encoder is not the negotiated server compression's name")
 			okAcc := false
 			for _, l := range StructFieldOriginsAt(meta, acceptF, call) {
 				if l.Kind == "call" {
@@ -312,11 +327,128 @@ func runC02(c *Ctx) {
 	c.Rule("C02.6", "narrowing to uint32 for an envelope length is dominated by a limit check of the same quantity", 2)
 	c.Rule("C02.7", "a synthesized request envelope's compressed flag = message was compressed AND server compression present", 1)
 	checkEnvelopeSites(c, "C02.4", "C02.6", "C02.7", true)
+	checkSynthFlagNonEmpty(c, "C02.7", true)
 
 	// ---------------------------------------------------------------- C02.8
 	c.Rule("C02.8", "content types: each target protocol writes its own wire format's Content-Type prefix; the request classifier maps each prefix to that protocol", 10)
 	checkContentTypeTables(c, "C02.8", "serverProtocolHandler", "addProtocolRequestHeaders", "requestMeta")
 	checkClassification(c, "C02.8")
+	checkMessageContentType(c, "C02.8", "serverBodyPreparer", "prepareMarshalledRequest")
+
+	// ---------------------------------------------------------------- C02.11
+	// Writer/reader agreement: the request headers the library itself writes when it SPEAKS a wire
+	// format are that format's control headers.  When it LISTENS to the same format, each of them
+	// must be taken off the request (by the protocol's extraction or by validation's generic
+	// deletions) - otherwise a control header of the client's protocol travels on to a backend
+	// that speaks another one (defect D43: Connect-Protocol-Version on a gRPC request).
+	c.Rule("C02.11", "every request control header the library writes for a wire format is removed when it receives that format", 4)
+	{
+		sphI := p.Iface("serverProtocolHandler")
+		written := map[string]map[string]token.Pos{} // class -> key -> where
+		for _, t := range p.Implementers(sphI) {
+			class := contentTypeClass(p, t)
+			m := p.MethodOf(t, "addProtocolRequestHeaders")
+			if m == nil {
+				fatalf("anchor=%s.addProtocolRequestHeaders not found", typeName(t))
+			}
+			if written[class] == nil {
+				written[class] = map[string]token.Pos{}
+			}
+			for _, fn := range SortedFuncs(p.Reach(m)) {
+				if !p.inScope(fn) {
+					continue
+				}
+				for _, hm := range HeaderMutations(fn) {
+					if hm.Op != "Set" && hm.Op != "Add" && hm.Op != "index" || hm.Key == nil {
+						continue
+					}
+					if k, ok := ConstString(hm.Key); ok {
+						written[class][textproto.CanonicalMIMEHeaderKey(k)] = hm.Instr.Pos()
+					}
+				}
+			}
+		}
+		for _, t := range p.Implementers(cph) {
+			class := contentTypeClass(p, t)
+			m := p.MethodOf(t, "extractProtocolRequestHeaders")
+			deleted := map[string]bool{}
+			for k := range generic {
+				deleted[k] = true
+			}
+			for _, fn := range SortedFuncs(p.Reach(m)) {
+				if p.inScope(fn) {
+					for k := range constDeletes(fn) {
+						deleted[k] = true
+					}
+				}
+			}
+			var keys []string
+			for k := range written[class] {
+				keys = append(keys, k)
+			}
+			sort.Strings(keys)
+			for _, k := range keys {
+				c.CountSite()
+				if k == "X-Server-Timeout" && class == "ProtocolREST" {
+					c.Trivial("C02.11", typeName(t), "removes:"+k, m.Pos(), "reasoned exception (see C02.3): re-emitted with the same meaning for REST targets")
+					continue
+				}
+				c.Check(deleted[k], "C02.11", typeName(t), "removes:"+k, m.Pos(),
+					"the "+class+" control header "+k+" (written by the library's own "+class+" encoder at "+p.Pos(written[class][k])+") is removed from a received "+class+" request",
+					"the library writes "+k+" as a control header of "+class+" requests ("+p.Pos(written[class][k])+") but does not remove it from a "+class+" request it receives: it travels on to a backend that speaks another protocol")
+			}
+		}
+	}
+
+	// family-wide control headers: the Connect specification defines Connect-Protocol-Version and
+	// Connect-Timeout-Ms for every Connect request (unary POST, GET and streaming alike; the
+	// "Connect-" namespace is reserved by the protocol, so neither can be application metadata).
+	// Sibling cross-check: each is removed by at least two of the family's request extractions
+	// (which confirms the table against the code) and must then be removed by all of them.
+	{
+		familyWide := map[string][]string{"ProtocolConnect": {"Connect-Protocol-Version", "Connect-Timeout-Ms"}}
+		type sib struct {
+			t   types.Type
+			m   *ssa.Function
+			del map[string]bool
+		}
+		fam := map[string][]sib{}
+		for _, t := range p.Implementers(cph) {
+			m := p.MethodOf(t, "extractProtocolRequestHeaders")
+			del := map[string]bool{}
+			for k := range generic {
+				del[k] = true
+			}
+			for _, fn := range SortedFuncs(p.Reach(m)) {
+				if p.inScope(fn) {
+					for k := range constDeletes(fn) {
+						del[k] = true
+					}
+				}
+			}
+			pc := protocolConstOf(p, t)
+			fam[pc] = append(fam[pc], sib{t, m, del})
+		}
+		for pc, keys := range familyWide {
+			for _, k := range keys {
+				n := 0
+				for _, sb := range fam[pc] {
+					if sb.del[k] {
+						n++
+					}
+				}
+				if n < 2 {
+					fatalf("anchor=family-wide control header %s: removed by %d of %d %s request extractions (table out of date)", k, n, len(fam[pc]), pc)
+				}
+				for _, sb := range fam[pc] {
+					c.CountSite()
+					c.Check(sb.del[k], "C02.11", typeName(sb.t), "removes:"+k, sb.m.Pos(),
+						"the family-wide control header "+k+" is removed by this request extraction like by its "+itoa(n-1)+" sibling(s)",
+						k+" is a control header of every "+pc+" request and is removed by "+itoa(n)+" of the "+itoa(len(fam[pc]))+" sibling extractions, but not by this one: it travels on to a backend that speaks another protocol")
+				}
+			}
+		}
+	}
 
 	// ---------------------------------------------------------------- C02.10
 	// (defect D23) Whether a request message counts as compressed decides whether it is
@@ -454,4 +586,133 @@ func callRecv(c ssa.CallInstruction) ssa.Value {
 		return cc.Args[0]
 	}
 	return nil
+}
+
+// emptyOnlyWithoutBody: every store of "" into field fld of the local struct behind meta happens
+// under a condition that also guards the draining of the request body (the 'no body is
+// forwarded' disposition).
+func emptyOnlyWithoutBody(p *Prog, fn *ssa.Function, meta ssa.Value, fld *types.Var) bool {
+	u, ok := meta.(*ssa.UnOp)
+	if !ok {
+		return false
+	}
+	al, ok := u.X.(*ssa.Alloc)
+	if !ok {
+		return false
+	}
+	// conditions under which the body is drained
+	drainConds := map[ssa.Value]bool{}
+	for _, call := range Calls(fn) {
+		sc := call.Common().StaticCallee()
+		if sc == nil || N(sc) != "drainBody" {
+			continue
+		}
+		for _, f := range FactsAt(call.Block()) {
+			if f.Truth {
+				drainConds[f.Cond] = true
+			}
+		}
+	}
+	if len(drainConds) == 0 {
+		return false
+	}
+	n := 0
+	for _, ref := range *al.Referrers() {
+		fa, ok := ref.(*ssa.FieldAddr)
+		if !ok || FieldOfAddr(fa) != fld {
+			continue
+		}
+		for _, rr := range *fa.Referrers() {
+			st, ok := rr.(*ssa.Store)
+			if !ok || st.Addr != ssa.Value(fa) {
+				continue
+			}
+			if s, isC := ConstString(st.Val); !isC || s != "" {
+				continue
+			}
+			n++
+			guarded := false
+			for _, f := range FactsAt(st.Block()) {
+				if f.Truth && drainConds[f.Cond] {
+					guarded = true
+				}
+			}
+			if !guarded {
+				return false
+			}
+		}
+	}
+	return n > 0
+}
+
+func hasDrainDisposition(fn *ssa.Function) bool {
+	for _, call := range Calls(fn) {
+		if sc := call.Common().StaticCallee(); sc != nil && N(sc) == "drainBody" {
+			for _, f := range FactsAt(call.Block()) {
+				if f.Truth {
+					return true
+				}
+			}
+		}
+	}
+	return false
+}
+
+// emptyWhenWithoutBody: between the last unconditional store to meta.fld and the use, there is
+// a branch on a condition that also guards the draining of the body whose true edge stores "".
+func emptyWhenWithoutBody(fn *ssa.Function, meta ssa.Value, fld *types.Var, use ssa.Instruction) bool {
+	u, ok := meta.(*ssa.UnOp)
+	if !ok {
+		return false
+	}
+	al, ok := u.X.(*ssa.Alloc)
+	if !ok {
+		return false
+	}
+	drainConds := map[ssa.Value]bool{}
+	for _, call := range Calls(fn) {
+		if sc := call.Common().StaticCallee(); sc != nil && N(sc) == "drainBody" {
+			for _, f := range FactsAt(call.Block()) {
+				if f.Truth {
+					drainConds[f.Cond] = true
+				}
+			}
+		}
+	}
+	var stores []*ssa.Store
+	for _, ref := range *al.Referrers() {
+		if fa, ok := ref.(*ssa.FieldAddr); ok && FieldOfAddr(fa) == fld {
+			for _, rr := range *fa.Referrers() {
+				if st, ok := rr.(*ssa.Store); ok && st.Addr == ssa.Value(fa) {
+					stores = append(stores, st)
+				}
+			}
+		}
+	}
+	for _, st := range stores {
+		if s, isC := ConstString(st.Val); !isC || s != "" {
+			continue
+		}
+		for _, f := range FactsAt(st.Block()) {
+			if !f.Truth || !drainConds[f.Cond] || f.If == nil {
+				continue
+			}
+			// the branch is on the way to the use, and no other store to the field follows it
+			if !f.If.Block().Dominates(use.Block()) {
+				continue
+			}
+			later := false
+			for _, o := range stores {
+				if o != st && f.If.Block().Dominates(o.Block()) && o.Block() != f.If.Block() {
+					if r, _ := MayReach(fn, o, func(in ssa.Instruction) bool { return in == use }); r {
+						later = true
+					}
+				}
+			}
+			if !later {
+				return true
+			}
+		}
+	}
+	return false
 }
